@@ -40,7 +40,7 @@ func c02dedup(c *Ctx, r *Report, fn *ssa.Function, rule string) {
 	reject := c.answerConst("Reject")
 	n := 0
 	for _, ret := range returnsOf(fn) {
-		k, isC := constInt(ret.Results[0])
+		k, isC := constInt(resOf(ret, 0))
 		if !isC || k != reject {
 			continue
 		}
@@ -380,7 +380,7 @@ func c02process(c *Ctx, r *Report, rule string) {
 		left := false
 		if ev != nil {
 			for _, ret := range returnsOf(fn) {
-				if origin(ret.Results[len(ret.Results)-1]) == ev {
+				if origin(resOf(ret, len(ret.Results)-1)) == ev {
 					for _, cd := range condsAt(ret.Block()) {
 						if is, isNil := nilTest(cd, ev); is && !isNil {
 							left = true
